@@ -777,7 +777,10 @@ def check_cfg_linearity(
             live = live_before[succ]
             for x, use_bb in live.items():
                 use_scope = scopes[use_bb]
-                place = use_scope[x]
+                # Look up the place as it leaves this BB. The scope of the using BB
+                # reflects the end of that BB, where the name could have been rebound
+                # to a value of another type after the use
+                place = scope[x]
                 if not place.ty.copyable and (prev_use := scope.used(x)):
                     use = use_scope.used_parent[x]
                     # Special case if this is a use arising from the implicit returning
